@@ -142,6 +142,26 @@ async fn run_set<TC: ModelCfg>(rep: &Report, set: &[usize], max_inserted: usize)
                 }
                 continue;
             }
+            // the server names a DIFFERENT end hash than the one the node sets produce (one byte flipped; the root of
+            // S with its first leaf pruned): the step must be rejected whatever the node sets are (also with nothing inserted)
+            {
+                let mut flipped = h_e;
+                flipped[31] ^= 1;
+                let pruned = if leaves.len() > 1 { trie::<TC>(&leaves[1..].to_vec()).root_hash } else { [0x5au8; 32] };
+                for (what, h_alt) in [("one_byte_flipped", flipped), ("root_of_pruned_tree", pruned)] {
+                    if h_alt == h_e {
+                        continue;
+                    }
+                    rep.eval(1);
+                    if verify_consecutive_append_only::<TC>(&proof, h_s, h_alt, end_epoch).await.is_ok() {
+                        rep.violation(
+                            format!("{}/end_hash_not_bound_to_node_sets/{}/inserted_{}", TC::NAME, what, ins.len()),
+                            json!({"set": desc, "unchanged": u_labels.iter().map(|l| l.show()).collect::<Vec<_>>(),
+                                   "inserted": ins.iter().map(|&i| pool[i].0.clone()).collect::<Vec<_>>(), "end_hash": hex::encode(h_alt)}),
+                        );
+                    }
+                }
+            }
             // semantic oracle: h_e must commit to S plus some subset J of the inserted leaves
             let ins_leaves: Vec<(usize, bool)> = ins.iter().filter_map(|&i| pool[i].2.map(|u| (u, pool[i].3))).collect();
             let mut superset = false;
